@@ -9,7 +9,7 @@ git -C /repo worktree add -q --detach $OF/repo HEAD || exit 2
 cp /repo/Cargo.lock $OF/repo/
 git -C /verif archive --format=tar --prefix=verif/ HEAD | tar -x -C $OF
 rsync -a /verif/seeded/ $OF/verif/seeded/
-: > /verif/seeded/OWN_FINAL.txt
+[ -n "${OWN_APPEND:-}" ] || : > /verif/seeded/OWN_FINAL.txt
 echo "# harness $(git -C /verif rev-parse --short HEAD), /repo $(git -C /repo rev-parse --short HEAD), default PRNG seed" >> /verif/seeded/OWN_FINAL.txt
 for n in "$@"; do
   id="${n%%-*}"
